@@ -5,6 +5,7 @@
 #include <cstdint>
 #include <cstdio>
 #include <iostream>
+#include <iomanip>
 #include <sstream>
 #include <string>
 #include <vector>
@@ -210,6 +211,29 @@ int main() {
             } catch (const std::invalid_argument &) {
                 os << "p throw";
             }
+        } else if (cmd == "parsesub") {
+            // every single-byte substitution of the given text (length x 256 strings): prints the accepted ones
+            std::string h;
+            in >> h;
+            const std::string base = unhex(h);
+            os << "U";
+            for (std::size_t i = 0; i < base.size(); ++i)
+                for (int b = 0; b < 256; ++b) {
+                    if (static_cast<unsigned char>(base[i]) == b) continue;
+                    std::string t = base;
+                    t[i] = static_cast<char>(b);
+                    try {
+                        const auto m = pos.parse_move(t);
+                        os << ' ' << i << ':' << b << ':' << code(m);
+                    } catch (const std::invalid_argument &) {
+                    }
+                }
+        } else if (cmd == "makehist") {
+            // makemove with an argument that lives inside the position's own history (no copy is taken)
+            std::size_t i;
+            in >> i;
+            pos.makemove(pos.history()[i].move);
+            os << "ok";
         } else if (cmd == "parseall") {
             // all 20480 coordinate strings [a-h][1-8][a-h][1-8][nbrq]?: prints the accepted ones
             os << "Q";
@@ -274,6 +298,11 @@ int main() {
             auto f = a;
             f ^= b;
             os << ' ' << hex(d.value()) << ' ' << hex(e.value()) << ' ' << hex(f.value());
+            auto g1 = a, g2 = a, g3 = a;
+            g1 &= s;
+            g2 |= s;
+            g3 ^= s;
+            os << " sqops " << hex(g1.value()) << ' ' << hex(g2.value()) << ' ' << hex(g3.value());
             os << " it";
             for (const auto &x : a) os << ' ' << sqi(x);
         } else if (cmd == "sq") {
@@ -286,6 +315,11 @@ int main() {
                << static_cast<bool>(squares::OffSq) << ' ' << sqi(squares::OffSq);
             os << ' ' << (s.rank() < 7 ? sqi(s.north()) : -1) << ' ' << (s.rank() > 0 ? sqi(s.south()) : -1) << ' '
                << (q < 63 ? sqi(s.east()) : -1) << ' ' << (q > 0 ? sqi(s.west()) : -1);
+            // stream insertion, in a fresh stream and in one that carries sticky numeric formatting flags
+            std::ostringstream o1, o2;
+            o1 << s;
+            o2 << std::hex << std::showbase << std::showpos << std::uppercase << s;
+            os << ' ' << hexstr(o1.str()) << ' ' << hexstr(o2.str());
         } else if (cmd == "between") {
             int a, b;
             in >> a >> b;
